@@ -1394,9 +1394,9 @@ def run_ops(plan, ctx, cfg):
                 try:
                     w.load(k)
                 except RealCodeError as e:
-                    ctx.check(isinstance(e.exc, ValueError), 'nonmonotonic-times-wrong-exception',
-                              lambda: {'exception': repr(e.exc)})
-                    ctx.ev(step, 'rejected')
+                    # rejected: the statement does not fix the exception type
+                    ctx.clauses += 1
+                    ctx.ev(step, 'rejected', type(e.exc).__name__)
                     return
                 ctx.fail('nonmonotonic-times-not-rejected')
             w.load(k)
